@@ -30,16 +30,24 @@ let o_corr_f fw fh tw th x y w h : rect4 =
   let w1 = float_of_int w *. scale_w and h1 = float_of_int h *. scale_h in
   let x2 = c_floor x1 and y2 = c_floor y1 in
   let w2 = c_ceil (w1 +. (x1 -. x2)) and h2 = c_ceil (h1 +. (y1 -. y2)) in
-  (((z_of_int (c_int x2), z_of_int (c_int y2)), z_of_int (c_int w2)), z_of_int (c_int h2))
+  let rx = c_int x2 and ry = c_int y2 and rw = c_int w2 and rh = c_int h2 in
+  (* driver-side check of the hypothesis fpu_ok of C04_no_div_zero on the doubles actually computed *)
+  if tw > 0 && tw <= 65535 && th > 0 && th <= 65535 && x >= 0 && w > 0 && x + w <= fw && y >= 0 && h > 0 && y + h <= fh
+     && not (rx >= 0 && rx < tw && ry >= 0 && ry < th && rw >= 0 && rw <= 65536 && rh >= 0 && rh <= 65536)
+  then Printf.printf "FPU-ASSERT fpu_ok violated by the doubles: %d %d %d %d  %d %d %d %d -> %d %d %d %d\n" fw fh tw th x y w h rx ry rw rh;
+  (((z_of_int rx, z_of_int ry), z_of_int rw), z_of_int rh)
 
 (* scale.c ScaleX(from, to, v) with from != to: (int)(((double)v * (double)to) / (double)from) *)
 let o_scale from_ to_ v : z =
   z_of_int (c_int ((float_of_int (int_of_z v) *. float_of_int (int_of_z to_)) /. float_of_int (int_of_z from_)))
 
 let zhints : (string, zres) Hashtbl.t = Hashtbl.create 16
+exception Unknown_inflate
 let o_inflate flags data : zres =
   let key = Printf.sprintf "%d:%d:%d" (int_of_z flags) (List.length data) (int_of_z (bsum data)) in
-  match Hashtbl.find_opt zhints key with Some r -> r | None -> ZUnknown
+  match Hashtbl.find_opt zhints key with
+  | Some r -> r
+  | None -> raise Unknown_inflate       (* no answer supplied for this payload: the driver stops comparing *)
 
 let auth_ok = List.init 16 (fun _ -> z_of_int 0xA1)
 let auth_bad = List.init 16 (fun _ -> z_of_int 0xB2)
@@ -113,16 +121,16 @@ let () =
         Printf.printf "cfg ok wit=%d\n" (g "wit" 1)
     | "zhint" :: flags :: len :: sum :: res :: _ ->
         let r = match res with
-          | "bad" -> ZBad
-          | "unknown" -> ZUnknown
+          | "bad" -> Some ZBad
+          | "unknown" -> None
           | s when String.length s >= 6 && String.sub s 0 6 = "steps:" ->
               let body = String.sub s 6 (String.length s - 6) in
               let parts = if body = "" then [] else String.split_on_char ',' body in
-              ZSteps (List.map (fun p -> match String.split_on_char '/' p with
+              Some (ZSteps (List.map (fun p -> match String.split_on_char '/' p with
                                          | [a; b] -> (z_of_int (int_of_string a), b = "1")
-                                         | _ -> (z_of_int (-1), false)) parts)
-          | _ -> ZUnknown in
-        Hashtbl.replace zhints (Printf.sprintf "%s:%s:%s" flags len sum) r;
+                                         | _ -> (z_of_int (-1), false)) parts))
+          | _ -> None in
+        (match r with Some r -> Hashtbl.replace zhints (Printf.sprintf "%s:%s:%s" flags len sum) r | None -> ());
         print_endline "zhint"
     | _ ->
       match !cfg with
@@ -173,7 +181,10 @@ let () =
               | None -> print_endline "run noconn"
               | Some cn when cn.opaque -> print_endline "opaque"
               | Some cn ->
-                  let (((obs, v), r1), ok) = run_conn o_corr_f o_scale o_inflate o_pw c (conn_fuel cn.rd) cn.st cn.rd in
+                  match (try Some (run_conn o_corr_f o_scale o_inflate o_pw c (conn_fuel cn.rd) cn.st cn.rd)
+                         with Unknown_inflate -> None) with
+                  | None -> cn.opaque <- true; print_endline "opaque"
+                  | Some (((obs, v), r1), ok) ->
                   cn.rd <- r1;
                   List.iter (fun (MkObs (ty, so, effs)) ->
                     match so with
